@@ -17,7 +17,7 @@ const (
 
 var c06Names = []string{"resetsFlags", "metaCompare", "tsPositive", "voidClears", "pushChecksType", "setSliceReplaces",
 	"u32delReleases", "u32delChecksType", "incFailClean", "noEmptyLive", "arekAllFalse", "countMissingOk",
-	"setErrSingle", "fltCondDirect", "saveReleasesImmediate", "wireExpNe0"}
+	"setErrSingle", "fltCondDirect", "keyChecked", "recreateKeepsPointer", "saveReleasesImmediate", "wireExpNe0"}
 
 func init() {
 	Register("C06", Extractor{Import: "Hv.Props.C06", Type: "Hv.C06.Facts", Run: func(fs *Facts) {
@@ -580,6 +580,126 @@ func c06All(gw, sw, tr *File) map[string]c06Fact {
 			fact = c06Fact{No, c06At(sw, at)}
 		}
 		out["fltCondDirect"] = fact
+	}
+
+	// ---- keyChecked: Set, Uint32SlicePush and the ten Increment handlers refuse a key the file cannot hold ---
+	// yes: `isValidKey` is `key != "" && len(key) <= maxKeyLength` with maxKeyLength = 65535, and each of the
+	// twelve handlers returns InvalidArgument under `!isValidKey(<its key>)` before it summons anything
+	{
+		fact := unk(gw)
+		defOK := false
+		if fd := gw.Func("", "isValidKey"); fd != nil && fd.Body != nil && len(fd.Body.List) == 1 {
+			if r, ok := fd.Body.List[0].(*ast.ReturnStmt); ok && len(r.Results) == 1 &&
+				gw.Str(r.Results[0]) == `key != "" && len(key) <= maxKeyLength` {
+				defOK = true
+			}
+		}
+		maxOK := false
+		ast.Inspect(gw.AST, func(n ast.Node) bool {
+			if vs, ok := n.(*ast.ValueSpec); ok && len(vs.Names) == 1 && vs.Names[0].Name == "maxKeyLength" &&
+				len(vs.Values) == 1 && gw.Str(vs.Values[0]) == "65535" {
+				maxOK = true
+			}
+			return true
+		})
+		guarded := func(fn, arg string) (bool, bool) { // (has the guard before SummonSwamp, mentions isValidKey at all)
+			fd := gw.Func("Gateway", fn)
+			if fd == nil {
+				return false, false
+			}
+			found, any := false, false
+			summon := token.Pos(0)
+			for _, c := range gw.CallsSuffix(fd.Body, "SummonSwamp") {
+				if summon == 0 || c.Pos() < summon {
+					summon = c.Pos()
+				}
+			}
+			ast.Inspect(fd.Body, func(n ast.Node) bool {
+				is, ok := n.(*ast.IfStmt)
+				if !ok {
+					return true
+				}
+				if strings.Contains(gw.Str(is.Cond), "isValidKey") {
+					any = true
+				}
+				if gw.Str(is.Cond) == "!isValidKey("+arg+")" && gw.Contains(is.Body, "codes.InvalidArgument") &&
+					gw.Contains(is.Body, "return nil") && (summon == 0 || is.Pos() < summon) {
+					found = true
+				}
+				return true
+			})
+			return found, any
+		}
+		handlers := [][2]string{{"Set", "item.GetKey()"}, {"Uint32SlicePush", "pair.GetKey()"}}
+		for _, t := range []string{"Int8", "Int16", "Int32", "Int64", "Uint8", "Uint16", "Uint32", "Uint64", "Float32", "Float64"} {
+			handlers = append(handlers, [2]string{"Increment" + t, "in.Key"})
+		}
+		with, mention := 0, 0
+		for _, h := range handlers {
+			f, a := guarded(h[0], h[1])
+			if f {
+				with++
+			}
+			if a {
+				mention++
+			}
+		}
+		switch {
+		case with == len(handlers) && defOK && maxOK:
+			fact = c06Fact{Yes, gw.Path}
+		case mention == 0 && gw.Func("", "isValidKey") == nil:
+			fact = c06Fact{No, gw.Path}
+		}
+		out["keyChecked"] = fact
+	}
+
+	// ---- recreateKeepsPointer: SaveFunction, new-key branch: the queued delete's file pointer is inherited ----
+	// yes: inside `if existedTreasureObj == nil`, before `treasuresWaitingForWriter.Delete(t.GetKey())`:
+	//      `if pending := s.treasuresWaitingForWriter.Get(t.GetKey()); pending != nil && pending.GetFileName() != nil {
+	//           t.BodySetFileName(guardID, *pending.GetFileName()) }`
+	// no:  the branch deletes the queued entry without looking at it
+	{
+		fact := unk(sw)
+		if fd := sw.Func("swamp", "SaveFunction"); fd != nil {
+			ast.Inspect(fd.Body, func(n ast.Node) bool {
+				is, ok := n.(*ast.IfStmt)
+				if !ok || sw.Str(is.Cond) != "existedTreasureObj == nil" {
+					return true
+				}
+				del := token.Pos(0)
+				for _, c := range sw.Calls(is.Body, "s.treasuresWaitingForWriter.Delete") {
+					if del == 0 {
+						del = c.Pos()
+					}
+				}
+				if del == 0 {
+					return false
+				}
+				fact = c06Fact{No, c06At(sw, is)}
+				mentions := false
+				for _, st := range is.Body.List {
+					inner, ok := st.(*ast.IfStmt)
+					if !ok {
+						continue
+					}
+					if strings.Contains(sw.Str(inner), "GetFileName") || strings.Contains(sw.Str(inner), "BodySetFileName") {
+						mentions = true
+					}
+					if inner.Init != nil && sw.Str(inner.Init) == "pending := s.treasuresWaitingForWriter.Get(t.GetKey())" &&
+						sw.Str(inner.Cond) == "pending != nil && pending.GetFileName() != nil" &&
+						len(inner.Body.List) == 1 && sw.Str(inner.Body.List[0]) == "t.BodySetFileName(guardID, *pending.GetFileName())" &&
+						inner.Else == nil && inner.Pos() < del {
+						fact = c06Fact{Yes, c06At(sw, inner)}
+						return false
+					}
+				}
+				if mentions {
+					fact = unk(sw)
+				}
+				return false
+			})
+		}
+		out["recreateKeepsPointer"] = fact
 	}
 
 	// ---- wireExpNe0: treasureToKeyValuePair shows ExpiredAt when `!= 0` (yes) / `> 0` (no) ---------------
